@@ -31,6 +31,11 @@ CLAIMS = {
          'TLC proves on the specification that the fn:path scheme identifies every node of every tree in bounds uniquely (and refutes the as-implemented sibling counting in a negative configuration); the real path strings of every node (document, element, attribute, text, comment, PI, namespace) from three APIs must equal the spec and select exactly that node again on xml.etree and lxml, for document, element and fragment roots.',
          'trees N<=3 all kinds (N=4 restricted kinds) with two namespaces, a default namespace, PI targets pi and a; no-namespace element under a default-namespace root excluded; node.path under fragment=True compared as a string only',
          'DESIGN.md section 4 C14'),
+ 'C05': ('model_checking',
+         'TLA+ specs Scopes (definitional environment-passing semantics of for/let/some/every/inline-function binders; scoping laws as TLC invariants; program-building machine) and SelectorHistory (one parsed expression over a pool of contexts in any order); every program and every history of the dumped graphs replayed on select / iter_select / Selector / parsed token with purity snapshots',
+         'TLC enumerates every binder program reachable by wrapping (bodies, ranges, arguments, reads after the binder; two variable names force shadowing) with its value in the outer environment, checks the no-leak / let-is-for / call-is-let / nested-for laws on the specification, and the programs are evaluated by the 2.0/3.0/3.1 parsers; every history of 3 (4) evaluations over 3 contexts is replayed on one Selector and one token for 57 expressions and compared with a fresh parse on a fresh context; caller inputs (document text, variable values incl. tzinfo, namespaces) are compared after every evaluation.',
+         'programs over integers/booleans only, depth 2 (quick) / 3 (thorough); ill-typed programs excluded by the WellTyped constraint; history templates are a fixed pool (paths, maps, arrays, inline functions, dateTime/implicit timezone) plus sampled Scopes programs; the oracle for histories is, as the property states, a fresh parse on a fresh context',
+         'DESIGN.md section 4 C05'),
 }
 NOT_YET = 'check not built yet (construction in progress, see DESIGN.md section 5)'
 
